@@ -22,6 +22,11 @@ CHECKS = {
    note="Reference = the implementation itself run alone (decides history-independence, not semantic correctness). Isolation between runs is a fresh set of celpy module objects (reload isolation), cross-checked against real fresh-interpreter runs by the selftest. Abort points are Python lines of celpy and of transpiled code; lark/re2/pendulum are atomic.",
    technique="deterministic simulation: seeded API-history + fault-injection search with alone-run reference oracle, ddmin-minimised replay files",
    ref="3 (C05)"),
+ "C16": dict(
+   text="2-4 real threads, each with its own Environment/program/bindings (the documented contract), run under a seeded baton-passing scheduler that pre-empts at every Python line of celpy and of transpiled code (policies: PCT depth<=3, random, hot-site-biased, round-robin; optional abort fault in one thread); every outcome must equal the same thread run alone; bounded liveness (<= 50x the alone step count). Sampling of schedules, not enumeration.",
+   note="Pre-emption granularity is one source line (sys.monitoring LINE events); C extensions, lark (except in trace_lark runs of the thorough tier) and the stdlib are atomic. The choice of who runs is the only stub. Free-running OS-scheduled stress is deliberately not used (not replayable).",
+   technique="deterministic simulation: real threads under a seeded baton-passing scheduler (PCT/random/hot policies), alone-run oracle, schedule ddmin, explicit switch-list replay",
+   ref="3 (C16)"),
 }
 
 def check(pid, c):
